@@ -368,6 +368,19 @@ class PureEval:
         arr = S.lift_lambda(self.bound, j, z3.If(z3.And(j >= 0, j < src.n), z3.substitute(bt, (i, j)), S.dflt(bt.sort())))
         return SSeq(body.ty, src.n, arr)
 
+    def p_SetComp(self, e):
+        """{f(x) for x in src if c(x)}: the same encoding as the executor's set(<comprehension>)"""
+        if len(e.generators) != 1 or not isinstance(e.generators[0].target, ast.Name):
+            raise Unsupported("spec: set comprehension form")
+        g = e.generators[0]
+        src = self.ev(g.iter)
+        if not isinstance(src, SSetV): src = self.ex.to_setv(src, self.st)
+        x = S.fresh("x!sb", S.sort_of(src.elem))
+        pe = self.sub(env=dict(self.env, **{g.target.id: S.wrap(src.elem, x)}), bound=(x,))
+        cond = z3.And(src.mem[x], *[ops.truth(self.st, pe.ev(c)) for c in g.ifs])
+        body = pe.ev(e.elt)
+        return SSetV(body.ty, S.set_builder_mem(pe.bound, x, cond, term_of(body)))
+
     def quant(self, lam, ty, universal):
         if not isinstance(lam, ast.Lambda): raise Unsupported("spec: quantifier needs a lambda")
         names = [a.arg for a in lam.args.args]
@@ -411,8 +424,7 @@ class PureEval:
             if n == "keys": return SSetV(args[0].kty, args[0].dom)
             if n == "vals":
                 d = args[0]
-                x = z3.Const("x!v", S.sort_of(d.vty)); kk = z3.Const("k!v", S.sort_of(d.kty))
-                return SSetV(d.vty, z3.Lambda([x], z3.Exists([kk], z3.And(d.dom[kk], d.val[kk] == x))))
+                return SSetV(d.vty, ops.vals_mem(d.kty, d.vty, d.dom, d.val))
             if n == "put":
                 d, kx, v = args
                 kt = ops.key_term(d.kty, kx)
